@@ -97,7 +97,7 @@ theorem outcome_tok (s : RN) : ∀ c, (outcome s).1 = some c → c.tok = s.reqTo
   | cons r rest =>
     rw [hs] at h
     cases r with
-    | fail => simp at h
+    | fail k => simp at h
     | ok nb na => simp at h; rw [← h]
     | okAnchorsFail nb na =>
       cases hd : s.dirOn <;> simp [hd] at h
